@@ -227,7 +227,7 @@ OrderProgs == {OrderProg(k, va, vb, L[1], L[2]) : k \in {"D1", "D2"}, va \in Val
 \* registers: 1 F  2 D1(X)  3 D2(X)  4 D1(Y)  5 D2(Y)  6 F (negative)  7 N(D1 X)  8 N(D2 X)
 PyBinNames == {"__add__", "__radd__", "__sub__", "__rsub__", "__mul__", "__rmul__", "__truediv__", "__rtruediv__", "__pow__"}
 PyCmpNames == {"__eq__", "__lt__", "__le__", "__gt__", "__ge__"}
-PyUnNames == {"__neg__", "__exp__", "__abs__", "__log__", "__norm_cdf__", "__norm_inv_cdf__", "__float__", "renew", "pickle", "to_json", "to_dual", "to_dual2"}
+PyUnNames == {"__neg__", "__exp__", "__abs__", "__log__", "__norm_cdf__", "__norm_inv_cdf__", "__float__", "renew", "pickle", "to_json", "to_dual", "to_dual2", "real", "vars"}
 PyProg(X, Y, neg) ==
   LET s == IF neg THEN -1 ELSE 1
       leaves == << LeafF(FOfRat(7, 4)), Leaf("D1", 1, FOfRat(s * 5, 8), X), Leaf("D2", 2, FOfRat(s * 3, 4), X),
@@ -245,8 +245,14 @@ PyProg(X, Y, neg) ==
                 (IF k = "D2" THEN [d2half |-> [i \in 1..nh |-> [j \in 1..nh |-> FOfRat(i + j, 8)]]] ELSE <<>>) :
               k \in {"D1", "D2"}, v \in {<<>>, <<"p">>, <<"p", "q">>, <<"p", "q", "p">>}, nd \in 0..3, nh \in 0..2}
       ord == {[op |-> "py", name |-> "adorder", order |-> o] : o \in 0..4}
+      \* ptr_eq among the numbers of one kind (2 and 7's source share nothing, a number shares with itself and with what vars_from makes of it)
+      ptr == {[op |-> "py", name |-> "ptr_eq", a |-> a, b |-> b] : a \in {2, 4}, b \in {2, 4}} \cup {[op |-> "py", name |-> "ptr_eq", a |-> a, b |-> b] : a \in {3, 5}, b \in {3, 5}}
+      man == {[op |-> "py", name |-> "grad1_manifold", a |-> a, names |-> nm] : a \in {3, 5}, nm \in {<<>>, <<"a">>, <<"b", "a">>, <<"c", "a", "b">>, <<"z">>}}
+      vf == {[op |-> "py", name |-> "vars_from", a |-> a, re |-> FOfRat(9, 4), vars |-> v, d |-> [i \in 1..nd |-> FOfRat(i, 2)]] @@
+                (IF a = 3 THEN [d2half |-> [i \in 1..nh |-> [j \in 1..nh |-> FOfRat(i + j, 8)]]] ELSE <<>>) :
+             a \in {2, 3}, v \in {<<>>, <<"a">>, <<"b", "a">>, <<"a", "b">>, <<"p", "a">>}, nd \in 0..2, nh \in {0, 2}}
   IN [key |-> "py/" \o (IF neg THEN "neg/" ELSE "") \o ToString(X) \o ToString(Y), leaves |-> leaves,
-      code |-> pre \o SetToSeq(bin \cup un \cup coreok \cup new \cup ord)]
+      code |-> pre \o SetToSeq(bin \cup un \cup coreok \cup new \cup ord \cup ptr \cup man \cup vf)]
 PyProgs == {PyProg(X, Y, n) : X \in {<<"a", "b">>, <<>>}, Y \in {<<"a", "b">>, <<"b", "c">>, <<"b", "a">>}, n \in BOOLEAN}
 
 \* ---- tails family: the far ends of the differentiable domain (C01 / C02) ---------------------------------
